@@ -39,11 +39,15 @@ void Normalizer::Normalize(SyntaxTree::Node& root) {
 }
 
 void Normalizer::Quantifier(SyntaxTree::Node& quant) {
-  if (quant(0).token.id == TokenID::NT_ENUM_DECL) {
-    EnumDeclaration(quant);
-  }
   if (quant(0).token.id == TokenID::NT_TUPLE_DECL) {
     TupleDeclaration(quant(0), quant(2));
+  } else if (quant(0).token.id == TokenID::NT_ENUM_DECL) {
+    for (Index child = 0; child < quant(0).ChildrenCount(); ++child) {
+      if (quant(0)(child).token.id == TokenID::NT_TUPLE_DECL) {
+        TupleDeclaration(quant(0)(child), quant(2));
+      }
+    }
+    EnumDeclaration(quant);
   }
 }
 
